@@ -112,3 +112,14 @@ def PCF_FIELDS(fs: list, hi: int) -> str:
     if hi == 1:
         return '{"name":"' + fs[0]["name"] + '","type":' + PCF(fs[0]["type"]) + "}"
     return PCF_FIELDS(fs, hi - 1) + ',{"name":"' + fs[hi - 1]["name"] + '","type":' + PCF(fs[hi - 1]["type"]) + "}"
+
+
+# ------------------------------------------------------------------ schema resolution: promotions (C08)
+@spec
+def PROMOTABLE(w: object, r: object) -> bool:
+    """Avro 'Schema Resolution': int -> long, float, double; long -> float, double; float -> double;
+    string <-> bytes"""
+    return (w == "int" and (r == "long" or r == "float" or r == "double")) \
+        or (w == "long" and (r == "float" or r == "double")) \
+        or (w == "float" and r == "double") \
+        or (w == "string" and r == "bytes") or (w == "bytes" and r == "string")
